@@ -37,7 +37,7 @@ def run(cmd, cwd=None, env=None, timeout=600, memlimit_kb=None):
     if memlimit_kb:
         cmd = ["bash", "-c", "ulimit -v %d; exec \"$@\"" % memlimit_kb, "x"] + list(cmd)
     p = subprocess.Popen(cmd, cwd=cwd, env=env or ENV, stdout=subprocess.PIPE, stderr=subprocess.STDOUT, text=True,
-                         start_new_session=True)
+                         errors="replace", start_new_session=True)
     try:
         out, _ = p.communicate(timeout=timeout)
         return p.returncode, out, False
@@ -194,7 +194,7 @@ def sweep(a):
             j = json.loads(l)
             if j.get("meta"):
                 meta = j
-            else:
+            elif j.get("outcome") != "sweep-error":   # a mutant the sweep itself failed on is tried again
                 done[j["key"]] = j
     head = subprocess.run(["git", "-C", REPO, "rev-parse", "HEAD"], stdout=subprocess.PIPE, text=True).stdout.strip()
     survivors_so_far = sum(1 for j in done.values() if j["outcome"] not in ("stillborn", "suite-killed"))
